@@ -55,4 +55,66 @@ def build(repo):
                     vcs.append(VC(f"ChainedEffect:spec:transform-passes-the-same-value-and-options#{idx}", [], z3.BoolVal(bool(same)), m))
             else:
                 vcs.append(VC(f"ChainedEffect:spec:{meth}-fails-only-when-a-member-fails#{idx}", pre, z3.Not(allok), m))
+    v2, u2 = callback_effect(repo)
+    return vcs + v2, und + u2
+
+
+def callback_effect(repo):
+    """CallbackEffect: validate/explain are those of the callback expression; transform evaluates the callback under the given options and applies the
+    resulting function to the value exactly once.  LogEffect: validates always, explains nothing, transform issues exactly one LogRequest."""
+    vcs, und = [], []
+    ci = repo.module("computation").classes.get("CallbackEffect")
+    m = {"law": "spec", "cls": "CallbackEffect"}
+    hyp = T.base_axioms() + litkey_facts()
+    if ci is not None:
+        cb = z3.Function("fld!CallbackEffect.callback", T.Ev, T.Ev)(SELF)
+        for meth, extra in (("validate", []), ("explain", []), ("transform", [Sym("val", V)])):
+            def run(ex, meth=meth, extra=extra):
+                s = ex.sym_self(ci)
+                r = ex.call(ex.getattr(s, meth), extra + [Sym("opt", O1)], {})
+                return ("kset", ex.kset_term(r)) if isinstance(r, KSetV) else ("none", None)
+            ps = explore(repo, run, tag="cb", config={"abstract_classes": (), "fn_contracts": FN_CONTRACTS})
+            u = sorted({p.value for p in ps if p.kind == "unsupported"})
+            if u:
+                und.append((f"CallbackEffect.{meth}", u))
+                continue
+            a = T.pack(T.mkseq(z3.IntVal(1), z3.Store(z3.K(T.I, T.DFLT), 0, V)), T.NOKW)
+            for idx, p in enumerate(ps):
+                pre = hyp + p.pc + p.defs
+                if meth == "validate":
+                    goal = T.VLok(cb, O1) if p.kind == "ok" else z3.Not(T.VLok(cb, O1))
+                elif meth == "explain":
+                    goal = z3.And(T.EXok(cb, O1), p.value[1] == T.EXset(cb, O1)) if p.kind == "ok" else z3.Not(T.EXok(cb, O1))
+                else:
+                    okc = z3.And(T.EVok(cb, O1), T.call_ok(T.EVval(cb, O1), a))
+                    goal = okc if p.kind == "ok" else z3.Not(okc)
+                    applies = [e for e in flat_events(p.trace) if e[0] == "apply"]
+                    if p.kind == "ok":
+                        vcs.append(VC(f"CallbackEffect:spec:transform-applies-the-callback-once#{idx}", [], z3.BoolVal(len(applies) == 1), m))
+                vcs.append(VC(f"CallbackEffect:spec:{meth}#{idx}", pre, goal, m))
+    li = repo.module("logging").classes.get("LogEffect")
+    if li is not None:
+        m2 = {"law": "spec", "cls": "LogEffect"}
+        for meth, extra in (("validate", []), ("explain", []), ("transform", [Sym("val", V)])):
+            def run(ex, meth=meth, extra=extra):
+                s = ex.sym_self(li)
+                r = ex.call(ex.getattr(s, meth), extra + [Sym("opt", O1)], {})
+                return ("kset", ex.kset_term(r)) if isinstance(r, KSetV) else ("none", None)
+            ps = explore(repo, run, tag="le", config={"abstract_classes": (), "fn_contracts": FN_CONTRACTS})
+            u = sorted({p.value for p in ps if p.kind == "unsupported"})
+            if u:
+                und.append((f"LogEffect.{meth}", u))
+                continue
+            for idx, p in enumerate(ps):
+                if meth in ("validate", "explain"):
+                    good = p.kind == "ok" and (meth == "validate" or True)
+                    goal = z3.BoolVal(bool(good))
+                    pre = []
+                    if meth == "explain" and p.kind == "ok":
+                        k = z3.Const("k!le", T.Key)
+                        pre, goal = hyp + p.pc + p.defs, z3.ForAll([k], z3.Not(z3.IsMember(k, p.value[1])))
+                    vcs.append(VC(f"LogEffect:spec:{meth}-always-succeeds{'-with-no-keys' if meth == 'explain' else ''}#{idx}", pre, goal, m2))
+                else:
+                    reqs = [e for e in flat_events(p.trace) if e[0] == "req" and "LogRequest" in str(e[1])]
+                    vcs.append(VC(f"LogEffect:spec:transform-issues-one-log-request#{idx}", [], z3.BoolVal(len(reqs) == 1), m2))
     return vcs, und
